@@ -4,7 +4,15 @@ package main
 // disagreement replays exactly from (seed, case index).
 type Rng struct{ s uint64 }
 
-func NewRng(seed uint64) *Rng { return &Rng{s: seed*0x9E3779B97F4A7C15 + 0x1234567} }
+// NewRng mixes the seed through the output function first, so that seeds s and
+// s+1 give unrelated streams (adding the increment to a seed scaled by the same
+// increment would only shift the stream by one case).
+func NewRng(seed uint64) *Rng {
+	r := &Rng{s: seed ^ 0x5DEECE66D}
+	r.s = r.U64() ^ 0x1234567
+	r.s = r.U64()
+	return r
+}
 
 func (r *Rng) U64() uint64 {
 	r.s += 0x9E3779B97F4A7C15
